@@ -358,6 +358,8 @@ def _run_plan(case):
 
 
 def run_impl(case):
+    import warnings
+    warnings.simplefilter("ignore")
     return _run_plan(case) if case["kind"] == "plan" else _run_direct(case)
 
 
@@ -475,8 +477,9 @@ def _family_violation(name, info, vals, lb, ub, S):
         if not _same(vi[i], exp, S):
             return {"clause": f"{name}-violation-formula",
                     "detail": {"index": i, "got": vi[i], "expected": float(exp), "value": float(v), "lower": lb[i], "upper": ub[i]}}
-        # a value outside a finite bound must be reported with a positive violation (exact)
-        outside = (not isinstance(l, float) and v < l) or (not isinstance(u, float) and v > u)
+        # a value (clearly, i.e. beyond rounding) outside a finite bound must be reported with a positive violation
+        margin = Fraction(S) / 10**9
+        outside = (not isinstance(l, float) and v < l - margin) or (not isinstance(u, float) and v > u + margin)
         if outside and not vi[i] > 0:
             return {"clause": f"{name}-outside-not-positive", "detail": {"index": i, "got": vi[i]}}
     return None
